@@ -98,6 +98,10 @@ func aesCTRXOR(key, inText, iv []byte) ([]byte, error) {
 	if err != nil {
 		return nil, err
 	}
+	// cipher.NewCTR panics on any other length, and the IV comes from the key file
+	if len(iv) != aesBlock.BlockSize() {
+		return nil, fmt.Errorf("invalid IV length %d, need %d", len(iv), aesBlock.BlockSize())
+	}
 	stream := cipher.NewCTR(aesBlock, iv)
 	outText := make([]byte, len(inText))
 	stream.XORKeyStream(outText, inText)
@@ -108,6 +112,10 @@ func aesCBCDecrypt(key, cipherText, iv []byte) ([]byte, error) {
 	aesBlock, err := aes.NewCipher(key)
 	if err != nil {
 		return nil, err
+	}
+	// cipher.NewCBCDecrypter panics on any other length, and the IV comes from the key file
+	if len(iv) != aesBlock.BlockSize() {
+		return nil, fmt.Errorf("invalid IV length %d, need %d", len(iv), aesBlock.BlockSize())
 	}
 	decrypter := cipher.NewCBCDecrypter(aesBlock, iv)
 	paddedPlaintext := make([]byte, len(cipherText))
